@@ -22,7 +22,7 @@ MTOrder == <<"default", "m", "n", "o", "u">>      \* the harness writes files wi
 NoDep == [name |-> "", body |-> None]
 MTDefaults ==
   CASE Scenario \in {"main_edit_dir_override", "dir_edit", "alias_eval", "dir_edit_linked", "merge_mode_dir_edit"} -> <<>>
-    [] Scenario \in {"defaults_permissive", "empty_main_dir_edit"} -> << [name |-> "n", body |-> RolesB({"dflt"}), dep |-> NoDep, removal |-> 0] >>
+    [] Scenario \in {"defaults_permissive", "empty_main_dir_edit", "defaults_override_removed"} -> << [name |-> "n", body |-> RolesB({"dflt"}), dep |-> NoDep, removal |-> 0] >>
     [] Scenario = "deprecated" -> << [name |-> "n", body |-> RolesB({"dflt"}), dep |-> [name |-> "o", body |-> RolesB({"old"})], removal |-> 0] >>
 
 File(c, t) == [exists |-> TRUE, mtime |-> t, content |-> c]
@@ -40,6 +40,8 @@ FsOld ==
     [] Scenario = "dir_edit_linked"        -> [f \in {"main", "d1/a"} |-> IF f = "main" THEN File(C1("u", RolesB({"a"})), 1) ELSE File(C2("n", Alias("m"), "m", RolesB({"a"})), 1)]
     \* an enforcer in merge mode (overwrite off)
     [] Scenario = "merge_mode_dir_edit"    -> [f \in {"main", "d1/a"} |-> IF f = "main" THEN File(C2("n", RolesB({"a"}), "m", RolesB({"a"})), 1) ELSE File(C1("n", RolesB({"d1r"})), 1)]
+    \* the operator's override of a registered default is taken out of the main file (permissive default rule)
+    [] Scenario = "defaults_override_removed" -> [f \in {"main", "d1/a"} |-> IF f = "main" THEN File(C2("default", AnyB, "n", RolesB({"a"})), 1) ELSE Gone]
     \* policy in code: the main file exists and defines nothing, the operator's overrides live in the directory
     [] Scenario = "empty_main_dir_edit"    -> [f \in {"main", "d1/a"} |-> IF f = "main" THEN File(NoRules, 1) ELSE File(C1("n", RolesB({"d1r"})), 1)]
 FsNew ==
@@ -51,6 +53,7 @@ FsNew ==
     [] Scenario = "dir_edit_linked"        -> [FsOld EXCEPT !["d1/a"] = File([NoRules EXCEPT !["m"] = RolesB({"b"}), !["n"] = Alias("o"), !["o"] = RolesB({"a"})], 2)]
     [] Scenario = "merge_mode_dir_edit"    -> [FsOld EXCEPT !["d1/a"] = File(C1("n", RolesB({"d2r"})), 2)]
     [] Scenario = "empty_main_dir_edit"    -> [FsOld EXCEPT !["d1/a"] = File(C1("n", RolesB({"d1r", "d2r"})), 2)]
+    [] Scenario = "defaults_override_removed" -> [FsOld EXCEPT !["main"] = File(C1("default", AnyB), 2)]
 DirSt == [d \in {"d1"} |-> [exists |-> TRUE, mtime |-> 1]]
 \* what is asked: the rule the edit concerns; a rule that lives only in the (unchanged part
 \* of the) main file; an undeclared name that resolves through the permissive default rule
